@@ -28,6 +28,8 @@ CacheMethods == {"GET", "HEAD"}
 
 NoMark == [kind |-> "none", at |-> 0, until |-> 0, ver |-> 0, live |-> FALSE]
 
+NoWant == [set |-> FALSE, by |-> 0, ended |-> FALSE, tried |-> FALSE]
+
 ObsInit(DK) ==
   [ req   |-> <<>>,
     ver   |-> <<>>,
@@ -39,6 +41,9 @@ ObsInit(DK) ==
     stuck |-> {},
     early |-> {},     \* requests released from the queue while the fetch they queued behind had not ended
     badpub |-> 0,
+    want  |-> [dk \in DK |-> NoWant],   \* publication on a cache with a store that ought to be handed to the store
+    unsaved |-> 0,    \* entries evicted after their publishing request had returned without the store ever having been handed the record
+    wild  |-> 0,      \* removals of an entry from memory that no purge call in progress covers
     badstore |-> 0,   \* records persisted under a key that do not decode, or hold a response obtained for another key     \* completions published on a key whose stored response / hit-for-pass period had not lapsed
     kills |-> 0 ]
 
@@ -151,25 +156,40 @@ Untimely(o, e, d, k, now) ==   \* nobody can be fetching a key whose marker is l
   LET m == o.mark[<<d, k>>] IN
   o.cur[<<d, k>>] = e /\ m.live /\ m.kind \in {"hit", "hfp"} /\ now <= m.until
 
-OPublish(o0, e, d, k, v, now, ttl) ==
+(* the request that publishes on entry e: it has its upstream answer and works on e *)
+Publisher(o, e) ==
+  LET P == {f \in DOMAIN o.req : o.req[f].ent = e /\ o.req[f].phase = "fetched"} IN
+  IF P = {} THEN 0 ELSE CHOOSE f \in P : TRUE
+
+(* st: the cache of the entry has a persistent store *)
+Wanted(o, e, st) == [set |-> st, by |-> Publisher(o, e), ended |-> FALSE, tried |-> FALSE]
+
+OPublish(o0, e, d, k, v, now, ttl, st) ==
   LET o == GC(o0)
       o1 == [o EXCEPT !.ver[v].obtained = now, !.ver[v].stored = TRUE, !.ver[v].ttl = ttl,
                       !.req = SetWait(o, Parked(o, e), v, now),
                       !.badpub = IF Untimely(o, e, d, k, now) THEN @ + 1 ELSE @]
   IN IF o.cur[<<d, k>>] = e
      THEN [o1 EXCEPT !.mark[<<d, k>>] =
-                        [kind |-> "hit", at |-> now, until |-> now + ttl, ver |-> v, live |-> TRUE]]
+                        [kind |-> "hit", at |-> now, until |-> now + ttl, ver |-> v, live |-> TRUE],
+                     !.want[<<d, k>>] = Wanted(o, e, st)]
      ELSE o1    \* an orphan (purged/evicted meanwhile): nobody can look it up any more
 
 (* entry object e of <<d,k>> was published as hit-for-pass at `now` for eff seconds *)
-OHfp(o0, e, d, k, now, eff) ==
+OHfp(o0, e, d, k, now, eff, st) ==
   LET o == GC(o0)
       o1 == [o EXCEPT !.req = SetWait(o, Parked(o, e), 0, now),
                       !.badpub = IF Untimely(o, e, d, k, now) THEN @ + 1 ELSE @]
   IN IF o.cur[<<d, k>>] = e
      THEN [o1 EXCEPT !.mark[<<d, k>>] =
-                        [kind |-> "hfp", at |-> now, until |-> now + eff, ver |-> 0, live |-> TRUE]]
+                        [kind |-> "hfp", at |-> now, until |-> now + eff, ver |-> 0, live |-> TRUE],
+                     !.want[<<d, k>>] = Wanted(o, e, st)]
      ELSE o1
+
+(* the store of a cache was handed a record for key k (whatever it then does with it) *)
+OSetTried(o0, k) ==
+  LET o == GC(o0) IN
+  [o EXCEPT !.want = [dk \in DOMAIN o.want |-> IF dk[2] = k THEN [o.want[dk] EXCEPT !.tried = TRUE] ELSE o.want[dk]]]
 
 (* the store was handed a record for key k: decodes (ok) and holds version v (0: no response, e.g. hit-for-pass) *)
 OPersisted(o0, k, v, ok) ==
@@ -186,7 +206,9 @@ OWoken(o0, r) ==
 (* the request ended: final label, error class, version delivered to the client *)
 OEnd(o0, r, label, err, v) ==
   LET o == GC(o0) IN
-  [o EXCEPT !.req[r].phase = "done", !.req[r].label = label, !.req[r].err = err, !.req[r].ver = v]
+  [o EXCEPT !.req[r].phase = "done", !.req[r].label = label, !.req[r].err = err, !.req[r].ver = v,
+            !.want = [dk \in DOMAIN o.want |-> IF o.want[dk].set /\ o.want[dk].by = r
+                                               THEN [o.want[dk] EXCEPT !.ended = TRUE] ELSE o.want[dk]]]
 
 Disturb(o, d, k) ==
   [r \in DOMAIN o.req |->
@@ -196,7 +218,9 @@ Disturb(o, d, k) ==
 (* a purge removed the entry of <<d,k>> from memory (it still holds the shard) *)
 ORemoved(o0, d, k) ==
   LET o == GC(o0) IN
-  [o EXCEPT !.cur[<<d, k>>] = 0, !.mark[<<d, k>>] = NoMark, !.req = Disturb(o, d, k)]
+  [o EXCEPT !.cur[<<d, k>>] = 0, !.mark[<<d, k>>] = NoMark, !.req = Disturb(o, d, k),
+            !.want[<<d, k>>] = NoWant,
+            !.wild = IF <<d, k>> \in DOMAIN o.pb /\ o.pb[<<d, k>>] <= o.pe[<<d, k>>] THEN @ + 1 ELSE @]
 
 (* the purge released the shard of <<d,k>>; ok: the persisted copy is gone (deleted, or no store) *)
 OPurged(o0, d, k, ok) ==
@@ -212,14 +236,18 @@ OPurgeReturn(o0, D, k) ==
 
 (* the LRU dropped the entry of <<d,k>> *)
 OEvicted(o0, d, k) ==
-  LET o == GC(o0) IN
+  LET o == GC(o0)
+      w == IF <<d, k>> \in DOMAIN o.want THEN o.want[<<d, k>>] ELSE NoWant IN
   [o EXCEPT !.cur[<<d, k>>] = 0,
-            !.mark[<<d, k>>] = [@ EXCEPT !.live = FALSE], !.req = Disturb(o, d, k)]
+            !.mark[<<d, k>>] = [@ EXCEPT !.live = FALSE], !.req = Disturb(o, d, k),
+            !.want[<<d, k>>] = NoWant,
+            !.unsaved = IF w.set /\ w.ended /\ ~w.tried THEN @ + 1 ELSE @]
 
 (* kill -9 and restart: every request in progress vanishes, nothing in memory survives *)
 OKill(o0) ==
   LET o == GC(o0) IN
   [o EXCEPT !.req = <<>>, !.kills = @ + 1,
+            !.want = [dk \in DOMAIN o.want |-> NoWant],
             !.cur = [dk \in DOMAIN o.cur |-> 0],
             !.mark = [dk \in DOMAIN o.mark |-> [o.mark[dk] EXCEPT !.live = FALSE]]]
 
@@ -246,6 +274,15 @@ P_NoUntimelyPublish(o) == o.badpub = 0
 
 (* C08/C09: what is persisted under a key is a well-formed record of that key *)
 P_StoreMatchesKey(o) == o.badstore = 0
+
+(* C07/C08: with a store configured, what was published (stored response or hit-for-pass marker) has been handed to
+   the store by the time its request returned -- observed when the entry is evicted: from then on the store is the
+   only place the response / marker can come from (purged and killed publications are exempt) *)
+P_PublishedIsPersisted(o) == o.unsaved = 0
+
+(* C18: entries leave memory only by eviction or under a purge call that names their key and their cache
+   (a purge of an absent cache or key touches nothing) *)
+P_NoWildRemoval(o) == o.wild = 0
 
 (* C01: a request that queued behind a fetch is not released before that fetch has ended *)
 P_NoEarlyRelease(o) == o.early = {}
